@@ -588,3 +588,7 @@ def start_consumed_once(ck, P, cfg, R="FLOW/crc-start"):
                   "and the 128-bit steps that follow xor it in a second time (crc32(start != 0, ..) is wrong for aligned buffers of 256+ "
                   "bytes on AVX-512 builds)" % (f.path, ty, "" if stored else " and never stores 0 back"), where(f))
     return n
+
+# session 5 (round 11)
+EXPLANATION = EXPLANATION + " " + (
+    'FLOW/crc-start:consumed (round 11, AVX-512 configuration K3b): the VPCLMULQDQ fold takes the start value by &mut and stores 0 where it xors it into the data, so the 128-bit steps that follow do not fold it in again.')
